@@ -406,39 +406,46 @@ where
         + Ord
         + FromUniformBytes<64>,
 {
-    instances
+    let all_instance_values = instances
         .iter()
-        .map(|instance| -> Result<InstanceSingle<F>, Error> {
-            let instance_values = instance
+        .map(|instance| {
+            instance
                 .iter()
-                .enumerate()
-                .map(|(i, values)| {
-                    // Committed instances go first.
-                    let is_committed_instance = i < nb_committed_instances;
+                .map(|values| {
                     let mut poly = pk.vk.domain.empty_lagrange();
                     assert_eq!(poly.len(), pk.vk.domain.n as usize);
                     if values.len() > (poly.len() - (pk.vk.cs.blinding_factors() + 1)) {
                         return Err(Error::InstanceTooLarge);
                     }
-                    if !is_committed_instance {
-                        transcript.common(&F::from_u128(values.len() as u128))?;
-                    }
-
                     for (poly_eval, value) in poly.iter_mut().zip(values.iter()) {
-                        if !is_committed_instance {
-                            transcript.common(value)?;
-                        }
                         *poly_eval = *value;
                     }
-
-                    if is_committed_instance {
-                        transcript.common(&CS::commit_lagrange(params, &poly))?;
-                    }
-
                     Ok(poly)
                 })
-                .collect::<Result<Vec<_>, _>>()?;
+                .collect::<Result<Vec<_>, _>>()
+        })
+        .collect::<Result<Vec<_>, _>>()?;
 
+    // The transcript order must match the verifier's (see `parse_trace`): first
+    // the committed instances of all proofs (committed instances go first in
+    // every proof), then the plain instances of all proofs.
+    for instance_values in all_instance_values.iter() {
+        for poly in instance_values.iter().take(nb_committed_instances) {
+            transcript.common(&CS::commit_lagrange(params, poly))?;
+        }
+    }
+    for instance in instances.iter() {
+        for values in instance.iter().skip(nb_committed_instances) {
+            transcript.common(&F::from_u128(values.len() as u128))?;
+            for value in values.iter() {
+                transcript.common(value)?;
+            }
+        }
+    }
+
+    all_instance_values
+        .into_iter()
+        .map(|instance_values| -> Result<InstanceSingle<F>, Error> {
             let instance_polys: Vec<_> = instance_values
                 .iter()
                 .map(|poly| {
